@@ -118,7 +118,17 @@ def run(tier, seed, replay=None):
         xs = [s for s in c09.seeds() if len(s) < 20000] + [
             "var g; val v = g; proc main() is 0(v)", "val a = b; val b = 1; proc main() is 0(a)",
             "val t = 0; proc p() is val t = t + 2; 1(t, 0) proc main() is p()", "proc main() is 0(\"\")", "proc main() is skip",
-            "proc p() is skip proc p() is skip proc main() is p()", "proc main() is 0(x)"]
+            "proc p() is skip proc p() is skip proc main() is p()", "proc main() is 0(x)",
+            # accepted by xcmp although meaningless in X: every symbol kind as an assignment target / operand
+            "proc main() is val v = 3; { v := 4; 0(v) }", "val g = 1; proc main() is { g := 2; 0(g) }",
+            "proc f(val x) is x := 1 proc main() is f(2)", "proc main() is val v = 1; var w; { w := 2; v := w; w := v; 0(w) }",
+            "proc p() is val a = 1; val b = 2; var c; { a := b; b := a; c := a + b; 0(c) } proc main() is p()",
+            "func f(val n) is val k = 5; { k := n; return k } proc main() is 0(f(3))",
+            "array a[3]; proc main() is val i = 1; { i := 2; a[i] := 7; 0(a[i]) }",
+            "proc main() is var x; val y = 2; { x := y; y := x; 0(y) }",
+            # literals that do not fit in 32 bits / have no digits (the lexers' conversion must not leave `value` stale)
+            "val big = 4294967298; proc main() is 0(big)", "proc main() is 0(99999999999999999999)", "val h = #; proc main() is 0(h)",
+            "val a = 7; val b = 4294967296; proc main() is 0(a + b)", "proc main() is 1(#FFFFFFFFFF, 0)"]
         pool = [(s, c09.tokenize(s)) for s in xs[:12]]
         for i in range(nx):
             k = i % 5
@@ -129,7 +139,7 @@ def run(tier, seed, replay=None):
                 src, toks = r.choice(pool)
                 ids = sorted({t for t in toks if c09.IDENT.fullmatch(t) and t not in G.KEYWORDS}) or ["x"]
                 xs.append(c09.semantic_mutate(r, toks, ids) if k == 3 else c09.mutate(r, toks, ids))
-        asms = GA.shipped_sources()
+        asms = GA.shipped_sources() + [b"DATA 99999999999\n", b"DATA 7\nDATA 4294967296\n", b"LDAC 18446744073709551616\n", b"BR x\nDATA 9\nx\nLDAC 99999999999999999999999\n"]
         for i in range(na):
             if i % 4 == 3:
                 asms.append(GA.malformed(r, asms[:4]))
